@@ -20,13 +20,18 @@ def run_job(pid, hname, tier, wall_limit):
     env = dict(os.environ)
     env['PYTHONPATH'] = ROOT + os.pathsep + os.environ.get('VERIF_REPO', '/repo')
     env.setdefault('PYTHONHASHSEED', '0')
-    try:
-        p = subprocess.run([PY, '-m', 'vf.worker', pid, hname, tier], cwd=ROOT, env=env, capture_output=True,
-                           text=True, timeout=wall_limit)
-    except subprocess.TimeoutExpired:
-        return {'harness': hname, 'verdict': 'INCONCLUSIVE', 'error': f'worker exceeded wall limit {wall_limit}s',
-                'paths': 0, 'total_wall_s': round(time.time() - t0, 1)}
-    lines = [ln for ln in p.stdout.strip().splitlines() if ln.startswith('{')]
+    for attempt in (1, 2):
+        try:
+            p = subprocess.run([PY, '-m', 'vf.worker', pid, hname, tier], cwd=ROOT, env=env, capture_output=True,
+                               text=True, timeout=wall_limit)
+        except subprocess.TimeoutExpired:
+            return {'harness': hname, 'verdict': 'INCONCLUSIVE', 'error': f'worker exceeded wall limit {wall_limit}s',
+                    'paths': 0, 'total_wall_s': round(time.time() - t0, 1)}
+        lines = [ln for ln in p.stdout.strip().splitlines() if ln.startswith('{')]
+        if p.returncode == 0 and lines:
+            break
+        # a worker that died without a verdict (infrastructure failure, not a verdict) is started once more; a second
+        # failure is reported as a harness error
     if p.returncode != 0 or not lines:
         return {'harness': hname, 'verdict': 'INCONCLUSIVE', 'paths': 0,
                 'error': f'worker exit {p.returncode}: ' + (p.stderr or p.stdout)[-1500:],
